@@ -19,7 +19,8 @@ package planner
 //@ func (*valuesNode).docValueLess -> (r)
 //@   loop 1 invariant forall(i, 0 <= i && i <= rangeindex, compareOf(docProp(docA, rangeslice[i].FieldIndexes), docProp(docB, rangeslice[i].FieldIndexes)) == 0)
 //@   loop 1 invariant sameslice(rangeslice, old(n.ordering))
-//@   ensures forall(k, 0 <= k && k < len(old(n.ordering)) && forall(i, 0 <= i && i < k, compareOf(docProp(docA, old(n.ordering)[i].FieldIndexes), docProp(docB, old(n.ordering)[i].FieldIndexes)) == 0) && compareOf(docProp(docA, old(n.ordering)[k].FieldIndexes), docProp(docB, old(n.ordering)[k].FieldIndexes)) != 0, r == ite(old(n.ordering)[k].Direction == mapper.DESC, compareOf(docProp(docA, old(n.ordering)[k].FieldIndexes), docProp(docB, old(n.ordering)[k].FieldIndexes)) > 0, compareOf(docProp(docA, old(n.ordering)[k].FieldIndexes), docProp(docB, old(n.ordering)[k].FieldIndexes)) < 0))
+//@   ensures len(old(n.ordering)) >= 1 && compareOf(docProp(docA, old(n.ordering)[0].FieldIndexes), docProp(docB, old(n.ordering)[0].FieldIndexes)) != 0 ==> r == ite(old(n.ordering)[0].Direction == mapper.DESC, compareOf(docProp(docA, old(n.ordering)[0].FieldIndexes), docProp(docB, old(n.ordering)[0].FieldIndexes)) > 0, compareOf(docProp(docA, old(n.ordering)[0].FieldIndexes), docProp(docB, old(n.ordering)[0].FieldIndexes)) < 0)
+//@   ensures forall(k, 1 <= k && k < len(old(n.ordering)) && compareOf(docProp(docA, old(n.ordering)[0].FieldIndexes), docProp(docB, old(n.ordering)[0].FieldIndexes)) == 0 && forall(i, 1 <= i && i < k, compareOf(docProp(docA, old(n.ordering)[i].FieldIndexes), docProp(docB, old(n.ordering)[i].FieldIndexes)) == 0) && compareOf(docProp(docA, old(n.ordering)[k].FieldIndexes), docProp(docB, old(n.ordering)[k].FieldIndexes)) != 0, r == ite(old(n.ordering)[k].Direction == mapper.DESC, compareOf(docProp(docA, old(n.ordering)[k].FieldIndexes), docProp(docB, old(n.ordering)[k].FieldIndexes)) > 0, compareOf(docProp(docA, old(n.ordering)[k].FieldIndexes), docProp(docB, old(n.ordering)[k].FieldIndexes)) < 0))
 //@   ensures forall(i, 0 <= i && i < len(old(n.ordering)), compareOf(docProp(docA, old(n.ordering)[i].FieldIndexes), docProp(docB, old(n.ordering)[i].FieldIndexes)) == 0) ==> !r
-//@   known C08-order-first-key-only ensures[1] excluding len(n.ordering) >= 2 && compareOf(docProp(docA, n.ordering[0].FieldIndexes), docProp(docB, n.ordering[0].FieldIndexes)) == 0
+//@   known C08-order-first-key-only ensures[2] excluding len(n.ordering) >= 2 && compareOf(docProp(docA, n.ordering[0].FieldIndexes), docProp(docB, n.ordering[0].FieldIndexes)) == 0
 //@   tags C08
